@@ -31,10 +31,25 @@ func c16R1(c *engine.Ctx) {
 		engine.Instrs(w, func(i ssa.Instruction) {
 			switch x := i.(type) {
 			case *ssa.If:
-				k := engine.Guard{If: x, Branch: true}.Cmp()
-				if sh, ok := engine.Unwrap(k.X).(*ssa.BinOp); ok && sh.Op == token.SHR && k.Op == token.LSS {
-					tW, _ = engine.ConstInt(k.Y)
-					shW, _ = engine.ConstInt(sh.Y)
+				// whichever way the test is written: one of the two edges says "len>>s < T"
+				for _, br := range []bool{true, false} {
+					k := engine.Guard{If: x, Branch: br}.Cmp()
+					for _, q := range []engine.Cmp{k, k.Swap()} {
+						sh, ok := engine.Unwrap(q.X).(*ssa.BinOp)
+						t, isK := engine.ConstInt(q.Y)
+						if !ok || sh.Op != token.SHR || !isK {
+							continue
+						}
+						switch q.Op {
+						case token.LSS:
+							tW = t
+						case token.LEQ:
+							tW = t + 1
+						default:
+							continue
+						}
+						shW, _ = engine.ConstInt(sh.Y)
+					}
 				}
 			case *ssa.Store:
 				if ia, ok := x.Addr.(*ssa.IndexAddr); ok {
@@ -49,9 +64,20 @@ func c16R1(c *engine.Ctx) {
 		engine.Instrs(r, func(i ssa.Instruction) {
 			switch x := i.(type) {
 			case *ssa.If:
-				k := engine.Guard{If: x, Branch: true}.Cmp()
-				if strings.HasSuffix(engine.Describe(k.X), ".Buf[0]") && k.Op == token.GEQ {
-					tR, _ = engine.ConstInt(k.Y)
+				for _, br := range []bool{true, false} {
+					k := engine.Guard{If: x, Branch: br}.Cmp()
+					for _, q := range []engine.Cmp{k, k.Swap()} {
+						t, isK := engine.ConstInt(q.Y)
+						if !strings.HasSuffix(engine.Describe(q.X), ".Buf[0]") || !isK {
+							continue
+						}
+						switch q.Op {
+						case token.GEQ:
+							tR = t
+						case token.GTR:
+							tR = t + 1
+						}
+					}
 				}
 			case *ssa.BinOp:
 				if x.Op == token.SHL {
